@@ -82,6 +82,21 @@ def special(v, d, drv, seed, modes=SPECIAL, reps=1):
         else:
             if not e.get("prompt") or e.get("connect", "ok") != "ok":
                 v.classify(dict(tag="C17-pool-stop-hangs"), "schedule %s: stopping the collector pool did not return within 2 s (connect=%s)" % (m, e.get("connect")), rp)
+    if tier == "thorough":
+        # the same behaviours on a race-detector build: informational (C17 does not speak of data races)
+        race = vlib.build("fractaldrv", race=True)
+        part = scen[:300]
+        json.dump(part, open(sf, "w"))
+        if os.path.exists(tf + ".races"):
+            os.remove(tf + ".races")
+        vlib.run_driver(race, sf, tf, ["-workers", str(min(vlib.NCPU, 8)), "-stall", "120"], timeout=2400)
+        sites = []
+        if os.path.exists(tf + ".races"):
+            import walletconc
+            sites = walletconc.race_sites(open(tf + ".races").read(), "fractal")
+        v.cov["race_sites_fractal"] = [list(x) for x in sites]
+        for st in sites:
+            log("NOTE race detector (fractal): %s" % (st,))
     v.cov["evaluations"] += len(scen)
     v.cov["samples"].append(["fixed schedules: " + ", ".join(modes)])
 
